@@ -54,6 +54,19 @@ def run_history(arg):
         blocks = [r.randbytes(r.choice([24, 40, 64, 100, 130])) for _ in range(5)] + [bytes(64)]
         prev = None
         others = {}
+        # a client may keep ONE Repository object for many commands (a long-lived process / library use) or create one per command (CLI)
+        long_lived = r.random() < 0.5
+        repos = {}
+        if long_lived:
+            import asyncio
+            R.PERSISTENT_LOOP = asyncio.new_event_loop()      # one loop for the whole history: Repository objects are bound to it
+
+        def repo_of(ui):
+            if not long_lived:
+                return None
+            if ui not in repos:
+                repos[ui] = w.repo(ui)
+            return repos[ui]
         # a stray object outside the two areas + (encrypted) nothing else: must never be touched
         w.backend.objects['stray/readme'] = b'not replicat'
         for step_no in range(n_ops):
@@ -67,7 +80,7 @@ def run_history(arg):
             if k < 0.45 or not present:
                 repeat = prev is not None and r.random() < 0.25
                 fs = prev if repeat else gen_fileset(r, blocks, prev)
-                res = w.snapshot(ui, fs, whole_second=r.random() < 0.2)
+                res = w.snapshot(ui, fs, repo=repo_of(ui), whole_second=r.random() < 0.2)
                 prev = fs
                 st.update(kind='snapshot', op=res['op'], error=None, uploaded=sorted({tuple(w.abstract_name(x)) for x in res['uploaded']}),
                           upload_count=len(res['uploaded']), repeat=repeat)
@@ -79,10 +92,10 @@ def run_history(arg):
                     sids = [r.choice(present)]
                 else:
                     sids = [r.choice(present), 999000 + step_no] if r.random() < 0.5 else [999000 + step_no]
-                res = w.delete(ui, sids)
+                res = w.delete(ui, sids, repo=repo_of(ui))
                 st.update(kind='delete', op=res['op'], error=res['error'], targets=sids)
             elif k < 0.88:
-                res = w.clean(ui)
+                res = w.clean(ui, repo=repo_of(ui))
                 st.update(kind='clean', op=res['op'], error=res['error'])
             else:
                 # orphan injection (what an interrupted snapshot leaves): upload a chunk nobody references, then continue
@@ -124,6 +137,10 @@ def run_history(arg):
             st['families_present'] = sorted(set(objs) | set(refs))
             st['stray_ok'] = w.backend.objects.get('stray/readme') == b'not replicat' and 'config' in w.backend.objects
             log['steps'].append(st)
+        log['long_lived'] = long_lived
+        if long_lived:
+            R.PERSISTENT_LOOP.close()
+            R.PERSISTENT_LOOP = None
         log['n_users'] = len(w.users)
         log['user_kinds'] = [uu.kind for uu in w.users]
     log['flags'] = sorted(log['flags'])
@@ -227,6 +244,7 @@ def run_histories(out, drv, label, n_hist, n_ops, oracles):
                    'ops': [st['kind'] + ('!' + st['error'] if st.get('error') else '') for st in log['steps']]}
         out.case(summary, nontrivial(log))
         out.count('enc' if log['cfg']['enc'] else 'plain')
+        out.count('client:' + ('one-repository-object-per-user' if log.get('long_lived') else 'fresh-object-per-command'))
         out.count('users:%d' % log['n_users'])
         for k in log['user_kinds'][1:]:
             out.count('user:' + k)
